@@ -677,10 +677,27 @@ def run_qutip(spec):
             del self._integrator.mcstep
 
     mcs.MCIntegrator._find_collapse_time = recording
+    from qutip.solver.integrator.scipy_integrator import IntegratorScipyDop853 as D
+    d_orig = D.mcstep
+    steps = spec.setdefault("_mcsteps", [])
+    del steps[:]
+
+    def d_mcstep(self, t, copy=True):
+        t_from = float(self._ode_solver.t)
+        rec = [t_from, float(t), None]
+        steps.append(rec)
+        del steps[:-3]
+        r = d_orig(self, t, copy)
+        rec[2] = float(r[0])
+        return r
+
+    if spec["method"] == "dop853":
+        D.mcstep = d_mcstep
     try:
         res = solver.run(st, spec["tlist"], ntraj=spec["ntraj"], seeds=spec["seed"])
     finally:
         mcs.MCIntegrator._find_collapse_time = orig
+        D.mcstep = d_orig
     return res
 
 
@@ -938,6 +955,14 @@ def check_run(spec):
                          det)], stats
             stats["search_exhausted"] = 1
             return [], stats          # documented behaviour: tolerance not reachable [NUM]
+        steps = spec.get("_mcsteps", [])
+        if (spec["method"] == "dop853" and "step size becomes too small" in str(e)
+                and len(steps) >= 2 and steps[-1][2] is None and steps[-2][2] is not None
+                and steps[-2][2] < steps[-2][1] and steps[-1][1] == steps[-2][1]
+                and steps[-2][1] - steps[-2][2] <= 4 * np.spacing(abs(steps[-2][1]))):
+            return [("dop853:" + DOP_SIG, msg + " (integrate(%r) stopped at %r, one rounding error short; "
+                     "the next mcstep over that gap fails)" % (steps[-2][1], steps[-2][2]),
+                     {"error": msg, "mcsteps": [list(x) for x in steps]})], stats
         return [("mcsolve-raised:" + type(e).__name__, msg, {"error": msg})], stats
     bad = []
     opts = {"norm_tol": spec["norm_tol"], "norm_t_tol": spec["norm_t_tol"]}
@@ -1132,6 +1157,7 @@ def check_mcstep(method, t0, rng):
 
 STAG_SIG = "search-stagnates-when-bracket-width-equals-norm_t_tol"
 LAST_SIG = "success-on-last-allowed-try-raises"
+DOP_SIG = "integrate-stops-one-ulp-short-then-step-size-too-small"
 
 
 def analyse_search(norm_steps, t_tol, n_tol, target, tp, tf, recs):
@@ -1399,12 +1425,16 @@ def run(ctx):
     ctx.log("proof step done")
 
     # ---- correspondence: corpus, fixed witness, random
-    n_sc = 240 if ctx.quick else 2400
+    n_sc = 240 if ctx.quick else 1600
     cases = []
     cdir = os.path.join(vlib.VERIF, "corpus", "C16")
+    sys_corpus = []
     if os.path.isdir(cdir):
         for f in sorted(os.listdir(cdir)):
-            cases.append(json.load(open(os.path.join(cdir, f))))
+            if f.startswith("sc_"):
+                cases.append(json.load(open(os.path.join(cdir, f))))
+            elif f.startswith("sys_"):
+                sys_corpus.append(spec_from_json(json.load(open(os.path.join(cdir, f)))))
     cases.append(WITNESS_SCRIPTED)
     while len(cases) < n_sc:
         cases.append(gen_case(rng, malformed=(len(cases) % 4 == 3)))
@@ -1454,7 +1484,7 @@ def run(ctx):
     njump = 0
     t_or = time.time()
     for i in range(n_sys):
-        spec = gen_system(rng)
+        spec = sys_corpus[i] if i < len(sys_corpus) else gen_system(rng)
         dist["system_kind"][spec["kind"]] = dist["system_kind"].get(spec["kind"], 0) + 1
         import warnings
         with warnings.catch_warnings():
@@ -1465,17 +1495,7 @@ def run(ctx):
         ctx.count_case(("system", json.dumps(spec_to_json(spec), sort_keys=True)),
                        nontrivial=st["jumps"] > 0)
         for sig, message, det in bad[:2]:
-            site = "mcsolve:trajectory-oracle"
-            if sig.startswith("find:"):
-                site = "mcsolve.MCIntegrator._find_collapse_time"
-                sig = sig[5:]
-            if spec["method"] == "lsoda" and sig.startswith("mcsolve-raised"):
-                # attribute to the lsoda restart defect only if the reference
-                # prescribes a collapse later than t = 2.25 in some trajectory
-                late = lsoda_late_collapse(spec)
-                if late:
-                    site = "scipy_integrator.IntegratorScipylsoda._one_step"
-                    sig = LSODA_SIG
+            site, sig = classify(spec, sig)
             ctx.violation(site, sig, message,
                           {"kind": "system", "spec": spec_to_json(spec), "detail": det})
         if i < 2:
@@ -1500,14 +1520,33 @@ def run(ctx):
                                  " (generator translator not run)"))
 
 
+def classify(spec, sig):
+    """site and stable signature of a trajectory-oracle finding."""
+    site = "mcsolve:trajectory-oracle"
+    if sig.startswith("find:"):
+        return "mcsolve.MCIntegrator._find_collapse_time", sig[5:]
+    if sig.startswith("dop853:"):
+        return "scipy_integrator.IntegratorScipyDop853.mcstep", sig[7:]
+    if spec["method"] == "lsoda" and sig.startswith("mcsolve-raised"):
+        # attribute to the lsoda restart defect only if the reference
+        # prescribes a collapse later than t = 2.25 in some trajectory
+        if lsoda_late_collapse(spec):
+            return "scipy_integrator.IntegratorScipylsoda._one_step", LSODA_SIG
+    return site, sig
+
+
 def lsoda_late_collapse(spec):
     ref = RefSystem(spec)
     if spec["psi0"] is None:
         return True     # mixed / super: do not resolve further
     from numpy.random import SeedSequence
     seeds = SeedSequence(spec["seed"]).spawn(spec["ntraj"])
+    floor = 0.0
+    if spec["improved"]:
+        y0 = ref.normalise(np.array(spec["psi0"], dtype=complex))
+        floor = ref.prob(ref.flow(spec["tlist"][0], y0, spec["tlist"][-1])(spec["tlist"][-1]))
     for sd in seeds:
-        cols = simulate_ref(ref, spec["psi0"], spec["tlist"], sd, 0.0, False)
+        cols = simulate_ref(ref, spec["psi0"], spec["tlist"], sd, floor, False)
         if any(abs(t) > 2.25 for t, _ in cols):
             return True
     return False
@@ -1569,8 +1608,8 @@ def replay(ctx, payload):
         spec = spec_from_json(d["spec"])
         bad, st = check_run(spec)
         for sig, message, det in bad[:2]:
-            ctx.violation(payload["site"], payload["signature"] if sig.startswith("mcsolve-raised")
-                          else sig, message, {"kind": "system", "spec": d["spec"], "detail": det})
+            site, sig = classify(spec, sig)
+            ctx.violation(site, sig, message, {"kind": "system", "spec": d["spec"], "detail": det})
     elif kind == "mcstep":
         bad = check_mcstep(d["method"], d["t0"], random.Random(0))
         for sig, message, det in bad:
